@@ -27,7 +27,9 @@ class Check:
     def __init__(self, pid, tier, seed):
         self.pid, self.tier, self.seed = pid, tier, seed
         self.t0 = time.time()
-        self.work = fresh_dir(os.path.join(OUT, "work", pid))
+        # per-process work directory (two runs of the same check may overlap); removed by finish()
+        self.work = fresh_dir(os.path.join(OUT, "work", f"{pid}.{os.getpid()}"))
+        _sweep_stale(os.path.join(OUT, "work"))
         self.replay_dir = ensure_dir(os.path.join(OUT, "replay"))
         self.states = 0
         self.transitions = 0
@@ -59,6 +61,10 @@ class Check:
             raise ToolError(f"driver {subcmd} ({cfg_id}) reported a usage/feature error (exit 2)")
         evs = read_ndjson_tolerant(path)
         if rc != 0:
+            if not evs:
+                # the driver died before recording a single event (could not create its output file, bad arguments...):
+                # nothing of the code under test was observed, so this is a tool error, not a verdict
+                raise ToolError(f"driver {subcmd} ({cfg_id}) exited {rc} without producing a trace")
             evs.append({"ev": "abort", "rc": rc, "cfg": cfg_id, "subcmd": subcmd})
         return evs
 
@@ -220,9 +226,23 @@ class Check:
         for v in self.violations:
             print(f"VIOLATION property={v.pid} replay={v.replay}")
             log("  " + v.what)
+        if not self.violations and not os.environ.get("VERIF_KEEP_WORK"):
+            shutil.rmtree(self.work, ignore_errors=True)
         log(f"[{self.pid}] {self.tier}: {self.events} events, {self.runs_ok} runs accepted, "
             f"{self.states} states, {len(self.violations)} violation(s), {wall:.0f}s")
         return 1 if self.violations else 0
+
+
+def _sweep_stale(root, max_age_s=6 * 3600):
+    """remove work directories left behind by killed runs"""
+    try:
+        now = time.time()
+        for d in os.listdir(root):
+            p = os.path.join(root, d)
+            if os.path.isdir(p) and now - os.path.getmtime(p) > max_age_s:
+                shutil.rmtree(p, ignore_errors=True)
+    except OSError:
+        pass
 
 
 def load_known():
